@@ -348,6 +348,57 @@ func runC18(c *Ctx) {
 			return (isLoadS(cm.X) && isNilConst(cm.Y)) || (isLoadS(cm.Y) && isNilConst(cm.X))
 		}
 		judgeUse := func(use ssa.Instruction, m ssa.Value, what string) {
+			// a local holding the receiver's map (m := *s; if m == nil { m = make(…); *s = m }): each value
+			// that can reach the write is a fresh non-nil map or a read of *s known to be non-nil on that edge
+			if ph, isPhi := m.(*ssa.Phi); isPhi {
+				isLoadS := func(v ssa.Value) bool {
+					a, ok := loadAddr(v)
+					return ok && a == ssa.Value(fn.Params[0])
+				}
+				holdsRecv := false
+				for _, e := range ph.Edges {
+					if isLoadS(e) {
+						holdsRecv = true
+					}
+					for _, r := range referrersOf(e) {
+						if st, ok := r.(*ssa.Store); ok && st.Val == e && st.Addr == ssa.Value(fn.Params[0]) {
+							holdsRecv = true
+						}
+					}
+				}
+				if !holdsRecv {
+					return
+				}
+				key := fnName(fn) + ":" + what + " (through a local)"
+				var probs []string
+				for i, e := range ph.Edges {
+					if good, _ := f.valueFNN(e, fn, 0); good {
+						continue
+					}
+					pred := ph.Block().Preds[i]
+					nn := false
+					cms := cmpsAt(pred)
+					if iff, ok := pred.Instrs[len(pred.Instrs)-1].(*ssa.If); ok {
+						idx := 0
+						if pred.Succs[1] == ph.Block() {
+							idx = 1
+						}
+						if cm, ok := edgeCmp(iff, idx); ok {
+							cms = append(cms, cm)
+						}
+					}
+					for _, cm := range cms {
+						if cm.Op == token.NEQ && ((cm.X == e && isNilConst(cm.Y)) || (cm.Y == e && isNilConst(cm.X))) {
+							nn = true
+						}
+					}
+					if !nn {
+						probs = append(probs, ksym(e)+" may be nil")
+					}
+				}
+				c.judge(len(probs) == 0, "R-NIL-LAZY", key, instrPos(use), "every value that reaches the write is a fresh map or a non-nil read of *s", fmt.Sprintf("the receiver's map is written through a local that may still be nil (%v): assignment to entry in nil map", probs))
+				return
+			}
 			a, ok := loadAddr(m)
 			if !ok || a != ssa.Value(fn.Params[0]) {
 				return
